@@ -576,7 +576,7 @@ func planC09(t *testing.T, tier string, seed uint64) ([]RunSpec, error) {
 					if f.multi {
 						reps = 4
 						if !quick(tier) {
-							reps = 12
+							reps = 60
 						}
 					}
 					for _, k := range ks {
